@@ -880,6 +880,10 @@ func (g *Gen) OracleResponse() (tx *transaction.Transaction) {
 
 var _ = big.NewInt
 
+// Committee returns the signers of a committee-only transaction (an ordinary payer + the CURRENT committee's majority
+// multisignature).
+func (g *Gen) Committee() []neotest.Signer { return g.committee() }
+
 // Tx and SafeDeploy are the exported forms of the transaction builders (probes and scenario drivers).
 func (g *Gen) Tx(signers []neotest.Signer, h util.Uint160, method string, args ...any) *transaction.Transaction {
 	return g.tx(signers, h, method, args...)
